@@ -513,8 +513,14 @@ func checkC03(rep *core.Report) {
 	checkModelKeys(rep, r8)
 	r9 := rep.Rule("R03.9", "the byte reader serves a request for zero octets (empty variable-length values, zero-length elements)", 2)
 	checkReaderAcceptsZero(prog, r9)
-	r10 := rep.Rule("R03.10", "up to three padding octets at the end of a set are not decoded as a record", 1)
+	r10 := rep.Rule("R03.10", "up to four padding octets at the end of a set are not decoded as a record", 1)
 	checkPaddingBound(prog, r10, "ipfix")
+	r11 := rep.Rule("R03.11", "the template cache stores every announcement it is given (records are decoded as the template last announced)", 2)
+	if c := findTplCache(prog, "ipfix"); c.insert != nil {
+		checkInsertUnconditional(r11, c)
+	} else {
+		r11.Undecided("ipfix:insert", token.NoPos, "cache insert not resolved")
+	}
 	checkLayoutSeq(prog, r1, "ipfix", "MessageHeader", []specField{{"Version", 2}, {"Length", 2}, {"ExportTime", 4}, {"SequenceNo", 4}, {"DomainID", 4}}, "IPFIX message header (RFC 7011 3.1)")
 	checkLayoutSeq(prog, r1, "ipfix", "SetHeader", []specField{{"SetID", 2}, {"Length", 2}}, "IPFIX set header (RFC 7011 3.3.2)")
 	for _, f := range findFillers(prog, "ipfix", "TemplateHeader") {
@@ -680,14 +686,14 @@ func checkC06(rep *core.Report) {
 	r3 := rep.Rule("R06.2b", "IANA type names map to their own abstract-type constants", 20)
 	r4 := rep.Rule("R06.3", "one specifier element feeds id, length, octets and type of a decoded field; template order; scope first", 6)
 	r5 := rep.Rule("R06.4", "flowset id routing: 0 template, 1 options template, >255 data", 3)
-	r6 := rep.Rule("R06.5", "every template record handed to the cache is a fresh object", 2)
+	r6 := rep.Rule("R06.5", "every template record handed to the cache is a fresh object, and the cache stores every announcement", 2)
 	r7 := rep.Rule("R06.6", "whoever reads one specifier list of a template reads the other too (records = scope fields + fields)", 1)
 	checkBothFieldLists(prog, r7, "netflow/v9")
 	r8 := rep.Rule("R06.7", "the built-in information model is keyed once per element, by the element's own id", 1)
 	checkModelKeys(rep, r8)
 	r9 := rep.Rule("R06.8", "the byte reader serves a request for zero octets (zero-length elements)", 2)
 	checkReaderAcceptsZero(prog, r9)
-	r10 := rep.Rule("R06.9", "up to three padding octets at the end of a flowset are not decoded as a record", 1)
+	r10 := rep.Rule("R06.9", "up to four padding octets at the end of a flowset are not decoded as a record", 1)
 	checkPaddingBound(prog, r10, "netflow/v9")
 	checkLayoutSeq(prog, r1, "netflow/v9", "PacketHeader", []specField{{"Version", 2}, {"Count", 2}, {"SysUpTime", 4}, {"UNIXSecs", 4}, {"SeqNum", 4}, {"SrcID", 4}}, "NetFlow v9 packet header (RFC 3954 5.1)")
 	checkLayoutSeq(prog, r1, "netflow/v9", "SetHeader", []specField{{"FlowSetID", 2}, {"Length", 2}}, "flowset header")
@@ -774,6 +780,9 @@ func checkC06(rep *core.Report) {
 		c := findTplCache(prog, rel)
 		if c.insert != nil {
 			checkTemplateImmutability(prog, r6, c)
+			// ... and reaches the cache: records are decoded as the template last announced only if insert stores every
+			// announcement (same rule as R04.4)
+			checkInsertUnconditional(r6, c)
 		} else {
 			r6.Undecided(rel+":insert", token.NoPos, "cache insert not resolved")
 		}
@@ -1037,9 +1046,9 @@ func checkReaderAcceptsZero(prog *core.Program, rr *core.RuleRun) {
 	}
 }
 
-// checkPaddingBound (R03.10 / R06.9): a set may end in up to three padding octets (sets are aligned to 4 octets).
+// checkPaddingBound (R03.10 / R06.9): a set may end in padding octets (sets are aligned to 4 or 8 octets).
 // The record loop's exit test on the octets left in the set (declared length minus octets consumed) is evaluated for
-// 0..3 octets left, where it must stop, and for 5, where it must go on.
+// 0..4 octets left, where it must stop, and for 5, where it must go on.
 func checkPaddingBound(prog *core.Program, rr *core.RuleRun, rel string) {
 	sd := findSetDecoder(prog, rel)
 	if sd.decodeSet == nil || sd.decodeDat == nil {
@@ -1116,7 +1125,10 @@ func checkPaddingBound(prog *core.Program, rr *core.RuleRun, rel string) {
 			return r == goOnTrue
 		}
 		bad := ""
-		for l := int64(0); l <= 3; l++ {
+		// 0..3 octets are padding to a 4-octet boundary; 4 octets are padding to an 8-octet boundary (RFC 7011 3.3.2
+		// allows either alignment; a record can be that short only in degenerate templates, and the decoders as pinned
+		// treat 4 octets as padding)
+		for l := int64(0); l <= 4; l++ {
 			if eval(l) {
 				bad = fmt.Sprintf("with %d octet(s) left in the set (padding) the loop decodes another record", l)
 			}
@@ -1124,7 +1136,7 @@ func checkPaddingBound(prog *core.Program, rr *core.RuleRun, rel string) {
 		if bad == "" && !eval(5) {
 			bad = "with 5 octets left in the set the loop stops: records are dropped"
 		}
-		rr.Check(bad == "", core.FuncName(fn)+":padding-bound", bo.Pos(), "stops with 0..3 octets left in the set, goes on with 5", bad+": padding is read as a record (and the following sets are misparsed), or records are lost")
+		rr.Check(bad == "", core.FuncName(fn)+":padding-bound", bo.Pos(), "stops with 0..4 octets left in the set, goes on with 5", bad+": padding is read as a record (and the following sets are misparsed), or records are lost")
 	}
 	if found == 0 {
 		rr.Undecided(core.FuncName(fn)+":padding-bound", fn.Pos(), "no exit test of the record loop on the octets left in the set (declared length minus consumed) found")
